@@ -469,11 +469,14 @@ theorem C13_module_inj_partial (root r1 r2 : Path) (l1 l2 : String)
   have key : ∀ (r : Path) (l : String), (∀ c ∈ r ++ [fileStem l], ∀ ch ∈ c.toList, ch ∉ Generated.moduleNameNormalised) →
       fileStem l ≠ "__init__" → pathKey root (root ++ r ++ [l]) = r ++ [fileStem l] := by
     intro r l hd hi
-    have hp : root.isPrefixOf (root ++ r ++ [l]) = true := by
-      rw [List.isPrefixOf_iff_prefix, List.append_assoc]; exact List.prefix_append _ _
+    have hw : withStem (root ++ r ++ [l]) = root ++ (r ++ [fileStem l]) := by
+      unfold withStem
+      simp [List.append_assoc]
+    have hp : root.isPrefixOf (withStem (root ++ r ++ [l])) = true := by
+      rw [hw, List.isPrefixOf_iff_prefix]; exact List.prefix_append _ _
     have hrel : relStem root (root ++ r ++ [l]) = r ++ [fileStem l] := by
       unfold relStem
-      simp [List.append_assoc]
+      rw [hw, List.drop_left]
     unfold pathKey
     simp only [hp, ↓reduceIte, hrel]
     have hl : (r ++ [fileStem l]).getLast? = some (fileStem l) := by simp
@@ -558,9 +561,9 @@ theorem C13_file_fail_exit (env : Env) (enum : List String → List String) (pre
   unfold collectReports
   simp only [Generated.collectDupSignaturePass, ↓reduceIte, failDups]
   apply failDupsLoop_fail
-  unfold rawReports
+  unfold rawReports pathReports
   simp only [hfiles]
-  exact List.mem_append.2 (Or.inl (foldl_collectStep_split env enum pre post p _ _ hf))
+  exact List.mem_append.2 (Or.inl (List.mem_append.2 (Or.inl (foldl_collectStep_split env enum pre post p _ _ hf))))
 
 /-- A raising decorator hook (duplicate ids, duplicated function objects) turns the whole file into one
 failed report. -/
